@@ -28,6 +28,7 @@ func virtualCheck(t *testing.T) {
 	r := mon.Start(t, "C10", "exploration")
 	defer r.Finish()
 	r.SetRule("virtual-time stage: (b) stall after o bytes for every 7th offset o, cancel via CancelFunc or deadline at c in {0, 1ms, 50ms}: NewConn must return an error at virtual time == c; " +
+		"(c) input that makes NewConn fail on its own (non-handshake record, other handshake message, hello cut short) on a transport whose writes block: NewConn must be back by virtual time c; " +
 		"(a') full hello delivered at virtual time 10ms, context ends at {before, same instant, after}: no SetDeadline after a successful return. distinct = (offset, cancel kind, time) cells")
 	k := echgen.NewKey(9, "public.example")
 	o := echgen.DefaultOpts()
@@ -157,6 +158,64 @@ func virtualCheck(t *testing.T) {
 			}
 		}
 	}
+	// (c) NewConn blocked in its own farewell: the input makes it fail (an alert is due) but the peer does not
+	// read and the transport's writes block. The context still has to bound the call.
+	bad := map[string][]byte{
+		"application-data-record": tlswire.Record(23, 0x0303, []byte("x")),
+		"handshake-not-a-hello":   tlswire.Record(22, 0x0301, []byte{11, 0, 0, 1, 0}),
+		"hello-cut-short":         tlswire.Record(22, 0x0301, hello[5:5+40]),
+		"alert-record":            tlswire.Record(21, 0x0303, []byte{1, 0}),
+	}
+	for name, in := range bad {
+		for _, kind := range []string{"cancel", "deadline"} {
+			for _, c := range []time.Duration{time.Millisecond, 50 * time.Millisecond} {
+				idx++
+				cs := map[string]any{"input": name, "kind": kind, "at": c.String(), "transport_writes_block": true}
+				var elapsed time.Duration
+				var err error
+				done := false
+				deadlock := ""
+				ok := t.Run(fmt.Sprintf("c%d", idx), func(t *testing.T) {
+					defer func() {
+						if p := recover(); p != nil {
+							deadlock = fmt.Sprint(p)
+						}
+					}()
+					synctest.Test(t, func(t *testing.T) {
+						tc := tap.New(nil)
+						tc.Feed(in)
+						tc.BlockWrites = true
+						var ctx context.Context
+						var cancel context.CancelFunc
+						if kind == "deadline" {
+							ctx, cancel = context.WithTimeout(context.Background(), c)
+						} else {
+							ctx, cancel = context.WithCancel(context.Background())
+							time.AfterFunc(c, cancel)
+						}
+						defer cancel()
+						start := time.Now()
+						_, err = ech.NewConn(ctx, tc, ech.WithKeys(keys))
+						elapsed = time.Since(start)
+						done = true
+						synctest.Wait()
+					})
+				})
+				r.Eval(fmt.Sprintf("farewell|%s|%s|%v", name, kind, c))
+				switch {
+				case deadlock != "" || !ok || !done:
+					r.Violate("virtual", idx, "blocked:newconn-did-not-return:writing-its-alert", "NewConn stayed blocked in the write of its alert after its context ended ("+deadlock+")", cs)
+				case err == nil:
+					r.Violate("virtual", idx, "blocked:no-error", "NewConn succeeded on input that is no ClientHello", cs)
+				case elapsed > c:
+					r.Violate("virtual", idx, "blocked:not-prompt", fmt.Sprintf("context ended at %v, NewConn returned at %v (virtual)", c, elapsed), cs)
+				default:
+					r.Count("prompt_failures_while_writing_the_alert", 1)
+				}
+			}
+		}
+	}
+	r.Floor("prompt_failures_while_writing_the_alert", 8)
 	r.Floor("prompt_failures", 50)
 	r.Floor("completion_cases_ok", 100)
 	r.Sample(map[string]any{"hello_len": len(hello)})
